@@ -307,7 +307,7 @@ def main():
         race_vs = [v for v in vs if v["kind"] == "race"]
         vs = [v for v in vs if v["kind"] != "race"]
         for v in race_vs:  # one -race run per violation, the scenario repeated to give the detector a chance
-            natr = native_replay([{"harness": v["harness"], "values": v["values"]}] * 30, all_h, tags, race=True)
+            natr = native_replay([{"harness": v["harness"], "values": v["values"]}] * 300, all_h, tags, race=True)
             replays += 1
             if isinstance(natr, dict):
                 inconclusive.append("native -race replay failed to run: " + natr.get("stderr", "")[-800:])
@@ -359,6 +359,14 @@ def main():
                        "native": v.get("native")}, f, indent=1)
         out_lines.append("VIOLATION property=%s replay=%s" % (pid, os.path.relpath(rp, VERIF)))
         out_lines.append("  harness=%s check=%s kind=%s %s" % (v["harness"], v["label"], v["kind"], v.get("detail", "")))
+    for v in list(unconfirmed):
+        sig = "%s/%s" % (v["harness"], v["label"])
+        k = next((k for k in known if k["sig"] == sig), None)
+        if k:  # a listed finding stays a finding even when this run's native attempt did not hit it (e.g. a race)
+            known_hits[sig] = k
+            unconfirmed.remove(v)
+    out_lines = ["KNOWN-FINDING: property=%s %s (sig=%s)" % (pid, k["text"], sig) for sig, k in sorted(known_hits.items())] + \
+                [l for l in out_lines if not l.startswith("KNOWN-FINDING")]
     for v in unconfirmed:
         inconclusive.append("counterexample for %s/%s did not reproduce natively (encoder or harness defect): native=%s" %
                             (v["harness"], v["label"], json.dumps(v.get("native"))))
